@@ -53,3 +53,13 @@ for d in /verif/seeded/S3-C*; do
   m $d/patch.diff $p $extra
 done
 m REVERT:60d0e05 C16 C18
+# round 4
+for d in /verif/seeded/S4-C*; do
+  s=$(basename $d); p=${s#S4-}; p=${p%%-*}
+  extra=""
+  case $s in
+    S4-C01-1) extra="C06 C18";; S4-C03-2) extra="C12";; S4-C07-1) extra="C08";; S4-C13-1) extra="C11";; S4-C03-1) extra="C13";; S4-C13-2) extra="C03";;
+    S4-C08-1) extra="C19";; S4-C17-1) extra="C11";;
+  esac
+  m $d/patch.diff $p $extra
+done
